@@ -36,7 +36,7 @@ def r12_1_total_order(ctx: Ctx) -> RuleResult:
 
 VALUE_TYPES = ["Duration", "Instant", "Offset", "LocalDate", "LocalTime", "LocalDateTime", "YearMonth", "AnnualDate", "OffsetDate", "OffsetTime",
                "OffsetDateTime", "ZonedDateTime", "Interval", "DateInterval", "Period", "_YearMonthDay", "_YearMonthDayCalendar", "ZoneInterval",
-               "_FixedDateTimeZone", "_LocalInstant"]
+               "_FixedDateTimeZone", "_LocalInstant", "MapZone"]
 
 # stored fields that __eq__ legitimately does not compare directly (one line of reason each)
 EQ_EXEMPT = {
